@@ -195,6 +195,7 @@ def M(name, mode, struct, depth=1, maxlist=0, sim=None, workers=4):
 
 
 ALLKINDS = ['tiny', 'array', 'threshold', 'bitmap', 'run', 'chunky', 'top', 'mixed', 'periodic']
+K9 = ALLKINDS[:8] + ['keygaps']   # + every cell in a chunk / bucket key of its own, unused keys between them
 ASSUME_SET = [
     'the harness interval-set/atom counting code (iset.go, universe.go, view32.go) is correct; it shares no code with the library',
     'arguments stay inside the documented domains listed in DESIGN 8.0',
@@ -208,8 +209,8 @@ def c01(tier):
         'rule': 'model: all pairs of subsets of 6 atoms x 48 binary-algebra calls (exhaustive, TLC) + all pairs of subsets of 5 chunk-sized cells (every alignment of chunk keys) x 48 calls; every transition is a script replayed under sampled concretisations x random build recipes; plus randomized real-scale traces; a case is one recorded call, non-trivial when it has at least one non-empty operand',
         'assumptions': ASSUME_SET,
         'phases': [
-            {'kind': 'replay', 'model': M('pairs_S6', 'pairs', 'S6'), 'kinds': ALLKINDS[:8], 'sample': 0.004 if q else 0.08},
-            {'kind': 'replay', 'model': M('keys_K5', 'keys', 'K5'), 'kinds': ['chunky', 'keyspread', 'chunky'], 'sample': 0.06 if q else 1.0},
+            {'kind': 'replay', 'model': M('pairs_S6', 'pairs', 'S6'), 'kinds': K9, 'sample': 0.004 if q else 0.08},
+            {'kind': 'replay', 'model': M('keys_K5', 'keys', 'K5'), 'kinds': ['chunky', 'keyspread', 'chunky', 'keygaps'], 'sample': 0.06 if q else 1.0},
             {'kind': 'drive', 'profile': 'algebra', 'traces': 160 if q else 3000, 'steps': 40},
             {'kind': 'drive', 'profile': 'kernel', 'traces': 900 if q else 20000, 'steps': 0},
         ],
@@ -222,10 +223,10 @@ def c02(tier):
         'rule': 'model: every mutation call from every subset of 7 atoms (exhaustive, TLC) + TLC-simulated histories of depth 12 over two slots; replayed under concretisations that put the call at the array/bitmap/run conversions; plus randomized real-scale histories',
         'assumptions': ASSUME_SET,
         'phases': [
-            {'kind': 'replay', 'model': M('step_S7', 'step', 'S7'), 'kinds': ALLKINDS[:8], 'sample': 0.02 if q else 0.5,
+            {'kind': 'replay', 'model': M('step_S7', 'step', 'S7'), 'kinds': K9, 'sample': 0.02 if q else 0.5,
              'extra': ['-opfilter', 'mut']},
             {'kind': 'replay', 'model': M('hist_S7', 'hist', 'S7', depth=12, sim={'num': 300 if q else 6000, 'depth': 13, 'seed': 7}),
-             'kinds': ALLKINDS[:8], 'sample': 0.25 if q else 0.5},
+             'kinds': K9, 'sample': 0.25 if q else 0.5},
             {'kind': 'drive', 'profile': 'history', 'traces': 160 if q else 3000, 'steps': 50},
             {'kind': 'drive', 'profile': 'burst', 'traces': 100 if q else 2000, 'steps': 0},
             {'kind': 'replay', 'model': M('cow_S6', 'cow', 'S6', depth=8, sim={'num': 1500 if q else 30000, 'depth': 10, 'seed': 5}),
@@ -240,7 +241,7 @@ def c03(tier):
         'rule': 'model: every query call in every subset-state of 7 atoms (exhaustive, TLC); replayed under concretisations (full chunks, single values, key 0xFFFF); plus randomized real-scale traces with landmark arguments',
         'assumptions': ASSUME_SET,
         'phases': [
-            {'kind': 'replay', 'model': M('step_S7', 'step', 'S7'), 'kinds': ALLKINDS[:8], 'sample': 0.02 if q else 0.5,
+            {'kind': 'replay', 'model': M('step_S7', 'step', 'S7'), 'kinds': K9, 'sample': 0.02 if q else 0.5,
              'extra': ['-opfilter', 'query']},
             {'kind': 'drive', 'profile': 'query', 'traces': 160 if q else 3000, 'steps': 50},
             {'kind': 'drive', 'profile': 'kernel', 'traces': 600 if q else 12000, 'steps': 0},
@@ -254,7 +255,7 @@ def c15(tier):
         'rule': 'model: the four neighbour queries at every cell boundary (both sides) in every subset-state of 7 atoms; replayed under concretisations with keys > 0, full chunks, gaps; plus randomized traces',
         'assumptions': ASSUME_SET,
         'phases': [
-            {'kind': 'replay', 'model': M('step_S7', 'step', 'S7'), 'kinds': ALLKINDS[:8], 'sample': 0.03 if q else 0.6,
+            {'kind': 'replay', 'model': M('step_S7', 'step', 'S7'), 'kinds': K9, 'sample': 0.03 if q else 0.6,
              'extra': ['-opfilter', 'nbr']},
             {'kind': 'drive', 'profile': 'neighbour', 'traces': 160 if q else 3000, 'steps': 50},
         ],
@@ -267,7 +268,7 @@ def c11(tier):
         'rule': 'model: all pairs of subsets of 4 atoms (+ a full and an empty bitmap) x every list (length 0..3, duplicates, an empty member) x 8 aggregates (exhaustive, TLC); replayed with chunk keys placed at the bottom, middle and top of the key space; plus randomized traces with worker counts 0,1,2,3,5,16',
         'assumptions': ASSUME_SET,
         'phases': [
-            {'kind': 'replay', 'model': M('agg_S4', 'agg', 'S4', maxlist=3), 'kinds': ['tiny', 'array', 'bitmap', 'run', 'chunky', 'top', 'mixed', 'keyspread'],
+            {'kind': 'replay', 'model': M('agg_S4', 'agg', 'S4', maxlist=3), 'kinds': ['tiny', 'array', 'bitmap', 'run', 'chunky', 'top', 'mixed', 'keyspread', 'keygaps'],
              'sample': 0.04 if q else 0.8},
             {'kind': 'drive', 'profile': 'aggregate', 'traces': 160 if q else 3000, 'steps': 40},
             {'kind': 'drive', 'profile': 'aggsparse', 'traces': 300 if q else 6000, 'steps': 0},
@@ -493,16 +494,19 @@ def c17(tier):
         'rule': 'the RoaringSet specification instantiated at 2^64: TLC models (pairs of subsets x binary algebra; every mutation/query call from every subset-state; simulated histories; aggregates) replayed on roaring64 under concretisations placed inside a bucket, straddling a 2^32 boundary, in bucket 0 and in bucket 0xFFFFFFFF; plus randomized real-scale 64-bit traces',
         'assumptions': ASSUME_SET + ['ranges are kept below 2^27 integers wide (a 64-bit range call materialises every chunk it covers)'],
         'phases': [
-            {'kind': 'replay', 'model': M('pairs_S6', 'pairs', 'S6'), 'kinds': ['tiny', 'array', 'threshold', 'bitmap', 'run', 'chunky', 'top', 'mixed'], 'sample': 0.002 if q else 0.04, 'extra': B},
-            {'kind': 'replay', 'model': M('step_S7', 'step', 'S7'), 'kinds': ['tiny', 'array', 'threshold', 'bitmap', 'run', 'chunky', 'top', 'mixed'], 'sample': 0.015 if q else 0.4, 'extra': B},
+            {'kind': 'replay', 'model': M('pairs_S6', 'pairs', 'S6'), 'kinds': ['tiny', 'array', 'threshold', 'bitmap', 'run', 'chunky', 'top', 'mixed', 'keygaps', 'keygaps'], 'sample': 0.002 if q else 0.04, 'extra': B},
+            {'kind': 'replay', 'model': M('step_S7', 'step', 'S7'), 'kinds': ['tiny', 'array', 'threshold', 'bitmap', 'run', 'chunky', 'top', 'mixed', 'keygaps', 'keygaps'], 'sample': 0.015 if q else 0.4, 'extra': B},
             {'kind': 'replay', 'model': M('hist_S7', 'hist', 'S7', depth=12, sim={'num': 300 if q else 6000, 'depth': 13, 'seed': 7}),
-             'kinds': ['tiny', 'array', 'threshold', 'run', 'chunky', 'top', 'mixed'], 'sample': 0.15 if q else 0.5, 'extra': B},
-            {'kind': 'replay', 'model': M('agg_S4', 'agg', 'S4', maxlist=3), 'kinds': ['tiny', 'array', 'run', 'chunky', 'top', 'mixed'], 'sample': 0.01 if q else 0.3, 'extra': B},
+             'kinds': ['tiny', 'array', 'threshold', 'run', 'chunky', 'top', 'mixed', 'keygaps', 'keygaps'], 'sample': 0.15 if q else 0.5, 'extra': B},
+            {'kind': 'replay', 'model': M('agg_S4', 'agg', 'S4', maxlist=3), 'kinds': ['tiny', 'array', 'run', 'chunky', 'top', 'mixed', 'keygaps', 'keygaps'], 'sample': 0.01 if q else 0.3, 'extra': B},
+            {'kind': 'replay', 'model': M('keys_K5', 'keys', 'K5'), 'kinds': ['keygaps', 'keygaps', 'chunky'], 'sample': 0.04 if q else 0.8, 'extra': B},
+            {'kind': 'replay', 'model': M('cow_S6', 'cow', 'S6', depth=8, sim={'num': 1500 if q else 30000, 'depth': 10, 'seed': 5}),
+             'kinds': ['keygaps', 'chunky', 'tiny'], 'sample': 0.1 if q else 0.4, 'extra': B + ['-keeprcp']},
             {'kind': 'drive', 'profile': 'all64', 'traces': 200 if q else 4000, 'steps': 50, 'extra': B},
             {'kind': 'drive', 'profile': 'aggsparse', 'traces': 240 if q else 5000, 'steps': 0, 'extra': B},
             {'kind': 'drive', 'profile': 'iter64', 'traces': 80 if q else 1500, 'steps': 50, 'extra': B},
             {'kind': 'replay', 'model': M('iter_S7', 'iter', 'S7', depth=6, sim={'num': 400 if q else 8000, 'depth': 8, 'seed': 11}),
-             'kinds': ['tiny', 'array', 'run', 'chunky', 'top', 'mixed'], 'sample': 0.05 if q else 0.3, 'extra': B},
+             'kinds': ['tiny', 'array', 'run', 'chunky', 'top', 'mixed', 'keygaps', 'keygaps'], 'sample': 0.05 if q else 0.3, 'extra': B},
         ],
     }
 
@@ -527,8 +531,8 @@ def c04(tier):
         'assumptions': ASSUME_SET + ['enumerations above 2^22 values are not driven'],
         'phases': [
             {'kind': 'replay', 'model': M('iter_S7', 'iter', 'S7', depth=6, sim={'num': 400 if q else 8000, 'depth': 8, 'seed': 11}),
-             'kinds': ['tiny', 'array', 'threshold', 'bitmap', 'run', 'chunky', 'top', 'mixed'], 'sample': 0.12 if q else 0.5},
-            {'kind': 'replay', 'model': M('oneshot_S7', 'oneshot', 'S7'), 'kinds': ['tiny', 'array', 'threshold', 'bitmap', 'run', 'chunky', 'top', 'mixed'],
+             'kinds': K9, 'sample': 0.12 if q else 0.5},
+            {'kind': 'replay', 'model': M('oneshot_S7', 'oneshot', 'S7'), 'kinds': K9,
              'sample': 0.03 if q else 0.6},
             {'kind': 'drive', 'profile': 'iter', 'traces': 200 if q else 4000, 'steps': 60},
         ],
